@@ -49,3 +49,40 @@ func VH_C09_mbappTellSizes() bool {
 	}
 	return false
 }
+
+// verif: time=concrete cover=refused,first-fragment bounds="mbapp Ask: same size obligations as Tell (inner MTU 25..65536, configured MTU 0..2^21, request length 0..MTU+1, all symbolic), decided at the first fragment"
+func VH_C09_mbappAskSizes() bool {
+	ctx, cancel := context.WithCancel(context.Background())
+	defer cancel()
+	M := vRange(HeaderSize+1, 1<<16)
+	mtu := vRange(0, 1<<21)
+	size := 0
+	told := false
+	inner := vInnerSz{vInner: vInner{mtu: M}}
+	inner.onTell = func(v p2p.IOVec) error {
+		told = true
+		vAssert(size <= mtu, "over-mtu-request-reached-the-inner-swarm")
+		vAssert(p2p.VecSize(v) <= M, "fragment-larger-than-inner-mtu")
+		hdr := Header(v[0])
+		part := M - HeaderSize
+		want := size / part
+		if part*want < size {
+			want++
+		}
+		vCover("first-fragment")
+		vAssert(int(hdr.GetTotalSize()) == size, "announced-total-size-differs")
+		vDone(int(hdr.GetPartCount()) == want, "announced-part-count-differs-from-true-count")
+		cancel() // natively: let the Ask return instead of waiting for a reply that never comes
+		return nil
+	}
+	s := vNewSwarm(vInner{mtu: M}, mtu)
+	s.inner = inner
+	payload := vOpaque(1<<21 + 1)
+	size = len(payload)
+	_, err := s.Ask(ctx, make([]byte, 4), 1, p2p.IOVec{payload})
+	if size > s.MTU() {
+		vCover("refused")
+		return err == p2p.ErrMTUExceeded && !told
+	}
+	return false
+}
